@@ -131,6 +131,11 @@ const TARGETS: &[Target] = &[
     Target { file: "ssz/src/bitfield/bitvector_dynamic.rs", imp: "Bitfield<Dynamic>", tr: "Encode", name: "ssz_append", coq: "bitdyn_ssz_append" },
     Target { file: "ssz/src/bitfield/bitvector_dynamic.rs", imp: "Bitfield<Dynamic>", tr: "Decode", name: "is_ssz_fixed_len", coq: "bitdyn_dec_is_ssz_fixed_len" },
     Target { file: "ssz/src/bitfield/bitvector_dynamic.rs", imp: "Bitfield<Dynamic>", tr: "Decode", name: "from_ssz_bytes", coq: "bitdyn_from_ssz_bytes" },
+    Target { file: "ssz/src/decode.rs", imp: "SszDecoderBuilder", tr: "", name: "new", coq: "builder_new" },
+    Target { file: "ssz/src/decode.rs", imp: "SszDecoderBuilder", tr: "", name: "register_type", coq: "builder_register_type" },
+    Target { file: "ssz/src/decode.rs", imp: "SszDecoderBuilder", tr: "", name: "build", coq: "builder_build" },
+    Target { file: "ssz/src/decode.rs", imp: "SszDecoder", tr: "", name: "decode_next_with", coq: "decoder_decode_next_with" },
+    Target { file: "ssz/src/decode.rs", imp: "SszDecoder", tr: "", name: "decode_next", coq: "decoder_decode_next" },
     Target { file: "ssz/src/decode/impls.rs", imp: "", tr: "", name: "decode_list_of_variable_length_items", coq: "decode_list_of_variable_length_items" },
     // Decode impls of the leaf types and the generic wrappers (ssz/src/decode/impls.rs)
     Target { file: "ssz/src/decode/impls.rs", imp: "u8", tr: "Decode", name: "is_ssz_fixed_len", coq: "u8_dec_is_ssz_fixed_len" },
@@ -184,6 +189,84 @@ const TARGETS: &[Target] = &[
     Target { file: "ssz/src/decode/impls.rs", imp: "U128", tr: "Decode", name: "from_ssz_bytes", coq: "alloy_u128_from_ssz_bytes" },
     Target { file: "ssz/src/decode/impls.rs", imp: "Bytes", tr: "Decode", name: "is_ssz_fixed_len", coq: "alloy_bytes_dec_is_ssz_fixed_len" },
     Target { file: "ssz/src/decode/impls.rs", imp: "Bytes", tr: "Decode", name: "from_ssz_bytes", coq: "alloy_bytes_from_ssz_bytes" },
+    // Encode impls (ssz/src/encode/impls.rs) and the rest of SszEncoder
+    Target { file: "ssz/src/encode.rs", imp: "SszEncoder", tr: "", name: "container", coq: "encoder_container" },
+    Target { file: "ssz/src/encode.rs", imp: "SszEncoder", tr: "", name: "append", coq: "encoder_append_item" },
+    Target { file: "ssz/src/encode/impls.rs", imp: "u8", tr: "Encode", name: "is_ssz_fixed_len", coq: "u8_enc_is_ssz_fixed_len" },
+    Target { file: "ssz/src/encode/impls.rs", imp: "u8", tr: "Encode", name: "ssz_fixed_len", coq: "u8_enc_ssz_fixed_len" },
+    Target { file: "ssz/src/encode/impls.rs", imp: "u8", tr: "Encode", name: "ssz_bytes_len", coq: "u8_ssz_bytes_len" },
+    Target { file: "ssz/src/encode/impls.rs", imp: "u8", tr: "Encode", name: "ssz_append", coq: "u8_ssz_append" },
+    Target { file: "ssz/src/encode/impls.rs", imp: "u16", tr: "Encode", name: "is_ssz_fixed_len", coq: "u16_enc_is_ssz_fixed_len" },
+    Target { file: "ssz/src/encode/impls.rs", imp: "u16", tr: "Encode", name: "ssz_fixed_len", coq: "u16_enc_ssz_fixed_len" },
+    Target { file: "ssz/src/encode/impls.rs", imp: "u16", tr: "Encode", name: "ssz_bytes_len", coq: "u16_ssz_bytes_len" },
+    Target { file: "ssz/src/encode/impls.rs", imp: "u16", tr: "Encode", name: "ssz_append", coq: "u16_ssz_append" },
+    Target { file: "ssz/src/encode/impls.rs", imp: "u32", tr: "Encode", name: "is_ssz_fixed_len", coq: "u32_enc_is_ssz_fixed_len" },
+    Target { file: "ssz/src/encode/impls.rs", imp: "u32", tr: "Encode", name: "ssz_fixed_len", coq: "u32_enc_ssz_fixed_len" },
+    Target { file: "ssz/src/encode/impls.rs", imp: "u32", tr: "Encode", name: "ssz_bytes_len", coq: "u32_ssz_bytes_len" },
+    Target { file: "ssz/src/encode/impls.rs", imp: "u32", tr: "Encode", name: "ssz_append", coq: "u32_ssz_append" },
+    Target { file: "ssz/src/encode/impls.rs", imp: "u64", tr: "Encode", name: "is_ssz_fixed_len", coq: "u64_enc_is_ssz_fixed_len" },
+    Target { file: "ssz/src/encode/impls.rs", imp: "u64", tr: "Encode", name: "ssz_fixed_len", coq: "u64_enc_ssz_fixed_len" },
+    Target { file: "ssz/src/encode/impls.rs", imp: "u64", tr: "Encode", name: "ssz_bytes_len", coq: "u64_ssz_bytes_len" },
+    Target { file: "ssz/src/encode/impls.rs", imp: "u64", tr: "Encode", name: "ssz_append", coq: "u64_ssz_append" },
+    Target { file: "ssz/src/encode/impls.rs", imp: "u128", tr: "Encode", name: "is_ssz_fixed_len", coq: "u128_enc_is_ssz_fixed_len" },
+    Target { file: "ssz/src/encode/impls.rs", imp: "u128", tr: "Encode", name: "ssz_fixed_len", coq: "u128_enc_ssz_fixed_len" },
+    Target { file: "ssz/src/encode/impls.rs", imp: "u128", tr: "Encode", name: "ssz_bytes_len", coq: "u128_ssz_bytes_len" },
+    Target { file: "ssz/src/encode/impls.rs", imp: "u128", tr: "Encode", name: "ssz_append", coq: "u128_ssz_append" },
+    Target { file: "ssz/src/encode/impls.rs", imp: "usize", tr: "Encode", name: "is_ssz_fixed_len", coq: "usize_enc_is_ssz_fixed_len" },
+    Target { file: "ssz/src/encode/impls.rs", imp: "usize", tr: "Encode", name: "ssz_fixed_len", coq: "usize_enc_ssz_fixed_len" },
+    Target { file: "ssz/src/encode/impls.rs", imp: "usize", tr: "Encode", name: "ssz_bytes_len", coq: "usize_ssz_bytes_len" },
+    Target { file: "ssz/src/encode/impls.rs", imp: "usize", tr: "Encode", name: "ssz_append", coq: "usize_ssz_append" },
+    Target { file: "ssz/src/encode/impls.rs", imp: "", tr: "", name: "sequence_ssz_bytes_len", coq: "sequence_ssz_bytes_len" },
+    Target { file: "ssz/src/encode/impls.rs", imp: "", tr: "", name: "sequence_ssz_append", coq: "sequence_ssz_append" },
+    Target { file: "ssz/src/encode/impls.rs", imp: "bool", tr: "Encode", name: "is_ssz_fixed_len", coq: "bool_enc_is_ssz_fixed_len" },
+    Target { file: "ssz/src/encode/impls.rs", imp: "bool", tr: "Encode", name: "ssz_fixed_len", coq: "bool_enc_ssz_fixed_len" },
+    Target { file: "ssz/src/encode/impls.rs", imp: "bool", tr: "Encode", name: "ssz_bytes_len", coq: "bool_ssz_bytes_len" },
+    Target { file: "ssz/src/encode/impls.rs", imp: "bool", tr: "Encode", name: "ssz_append", coq: "bool_ssz_append" },
+    Target { file: "ssz/src/encode/impls.rs", imp: "NonZeroUsize", tr: "Encode", name: "is_ssz_fixed_len", coq: "nonzero_enc_is_ssz_fixed_len" },
+    Target { file: "ssz/src/encode/impls.rs", imp: "NonZeroUsize", tr: "Encode", name: "ssz_fixed_len", coq: "nonzero_enc_ssz_fixed_len" },
+    Target { file: "ssz/src/encode/impls.rs", imp: "NonZeroUsize", tr: "Encode", name: "ssz_bytes_len", coq: "nonzero_ssz_bytes_len" },
+    Target { file: "ssz/src/encode/impls.rs", imp: "NonZeroUsize", tr: "Encode", name: "ssz_append", coq: "nonzero_ssz_append" },
+    Target { file: "ssz/src/encode/impls.rs", imp: "Option<T>", tr: "Encode", name: "is_ssz_fixed_len", coq: "option_enc_is_ssz_fixed_len" },
+    Target { file: "ssz/src/encode/impls.rs", imp: "Option<T>", tr: "Encode", name: "ssz_bytes_len", coq: "option_ssz_bytes_len" },
+    Target { file: "ssz/src/encode/impls.rs", imp: "Option<T>", tr: "Encode", name: "ssz_append", coq: "option_ssz_append" },
+    Target { file: "ssz/src/encode/impls.rs", imp: "Arc<T>", tr: "Encode", name: "is_ssz_fixed_len", coq: "arc_enc_is_ssz_fixed_len" },
+    Target { file: "ssz/src/encode/impls.rs", imp: "Arc<T>", tr: "Encode", name: "ssz_fixed_len", coq: "arc_enc_ssz_fixed_len" },
+    Target { file: "ssz/src/encode/impls.rs", imp: "Arc<T>", tr: "Encode", name: "ssz_bytes_len", coq: "arc_ssz_bytes_len" },
+    Target { file: "ssz/src/encode/impls.rs", imp: "Arc<T>", tr: "Encode", name: "ssz_append", coq: "arc_ssz_append" },
+    Target { file: "ssz/src/encode/impls.rs", imp: "&T", tr: "Encode", name: "is_ssz_fixed_len", coq: "ref_enc_is_ssz_fixed_len" },
+    Target { file: "ssz/src/encode/impls.rs", imp: "&T", tr: "Encode", name: "ssz_fixed_len", coq: "ref_enc_ssz_fixed_len" },
+    Target { file: "ssz/src/encode/impls.rs", imp: "&T", tr: "Encode", name: "ssz_bytes_len", coq: "ref_ssz_bytes_len" },
+    Target { file: "ssz/src/encode/impls.rs", imp: "&T", tr: "Encode", name: "ssz_append", coq: "ref_ssz_append" },
+    Target { file: "ssz/src/encode/impls.rs", imp: "[u8;N]", tr: "Encode", name: "is_ssz_fixed_len", coq: "array_enc_is_ssz_fixed_len" },
+    Target { file: "ssz/src/encode/impls.rs", imp: "[u8;N]", tr: "Encode", name: "ssz_fixed_len", coq: "array_enc_ssz_fixed_len" },
+    Target { file: "ssz/src/encode/impls.rs", imp: "[u8;N]", tr: "Encode", name: "ssz_bytes_len", coq: "array_ssz_bytes_len" },
+    Target { file: "ssz/src/encode/impls.rs", imp: "[u8;N]", tr: "Encode", name: "ssz_append", coq: "array_ssz_append" },
+    Target { file: "ssz/src/encode/impls.rs", imp: "Vec<T>", tr: "Encode", name: "is_ssz_fixed_len", coq: "vec_enc_is_ssz_fixed_len" },
+    Target { file: "ssz/src/encode/impls.rs", imp: "Vec<T>", tr: "Encode", name: "ssz_bytes_len", coq: "vec_ssz_bytes_len" },
+    Target { file: "ssz/src/encode/impls.rs", imp: "Vec<T>", tr: "Encode", name: "ssz_append", coq: "vec_ssz_append" },
+    Target { file: "ssz/src/encode/impls.rs", imp: "Address", tr: "Encode", name: "is_ssz_fixed_len", coq: "address_enc_is_ssz_fixed_len" },
+    Target { file: "ssz/src/encode/impls.rs", imp: "Address", tr: "Encode", name: "ssz_fixed_len", coq: "address_enc_ssz_fixed_len" },
+    Target { file: "ssz/src/encode/impls.rs", imp: "Address", tr: "Encode", name: "ssz_bytes_len", coq: "address_ssz_bytes_len" },
+    Target { file: "ssz/src/encode/impls.rs", imp: "Address", tr: "Encode", name: "ssz_append", coq: "address_ssz_append" },
+    Target { file: "ssz/src/encode/impls.rs", imp: "FixedBytes<N>", tr: "Encode", name: "is_ssz_fixed_len", coq: "fixedbytes_enc_is_ssz_fixed_len" },
+    Target { file: "ssz/src/encode/impls.rs", imp: "FixedBytes<N>", tr: "Encode", name: "ssz_fixed_len", coq: "fixedbytes_enc_ssz_fixed_len" },
+    Target { file: "ssz/src/encode/impls.rs", imp: "FixedBytes<N>", tr: "Encode", name: "ssz_bytes_len", coq: "fixedbytes_ssz_bytes_len" },
+    Target { file: "ssz/src/encode/impls.rs", imp: "FixedBytes<N>", tr: "Encode", name: "ssz_append", coq: "fixedbytes_ssz_append" },
+    Target { file: "ssz/src/encode/impls.rs", imp: "Bloom", tr: "Encode", name: "is_ssz_fixed_len", coq: "bloom_enc_is_ssz_fixed_len" },
+    Target { file: "ssz/src/encode/impls.rs", imp: "Bloom", tr: "Encode", name: "ssz_fixed_len", coq: "bloom_enc_ssz_fixed_len" },
+    Target { file: "ssz/src/encode/impls.rs", imp: "Bloom", tr: "Encode", name: "ssz_bytes_len", coq: "bloom_ssz_bytes_len" },
+    Target { file: "ssz/src/encode/impls.rs", imp: "Bloom", tr: "Encode", name: "ssz_append", coq: "bloom_ssz_append" },
+    Target { file: "ssz/src/encode/impls.rs", imp: "U256", tr: "Encode", name: "is_ssz_fixed_len", coq: "u256_enc_is_ssz_fixed_len" },
+    Target { file: "ssz/src/encode/impls.rs", imp: "U256", tr: "Encode", name: "ssz_fixed_len", coq: "u256_enc_ssz_fixed_len" },
+    Target { file: "ssz/src/encode/impls.rs", imp: "U256", tr: "Encode", name: "ssz_bytes_len", coq: "u256_ssz_bytes_len" },
+    Target { file: "ssz/src/encode/impls.rs", imp: "U256", tr: "Encode", name: "ssz_append", coq: "u256_ssz_append" },
+    Target { file: "ssz/src/encode/impls.rs", imp: "U128", tr: "Encode", name: "is_ssz_fixed_len", coq: "alloy_u128_enc_is_ssz_fixed_len" },
+    Target { file: "ssz/src/encode/impls.rs", imp: "U128", tr: "Encode", name: "ssz_fixed_len", coq: "alloy_u128_enc_ssz_fixed_len" },
+    Target { file: "ssz/src/encode/impls.rs", imp: "U128", tr: "Encode", name: "ssz_bytes_len", coq: "alloy_u128_ssz_bytes_len" },
+    Target { file: "ssz/src/encode/impls.rs", imp: "U128", tr: "Encode", name: "ssz_append", coq: "alloy_u128_ssz_append" },
+    Target { file: "ssz/src/encode/impls.rs", imp: "Bytes", tr: "Encode", name: "is_ssz_fixed_len", coq: "alloy_bytes_enc_is_ssz_fixed_len" },
+    Target { file: "ssz/src/encode/impls.rs", imp: "Bytes", tr: "Encode", name: "ssz_bytes_len", coq: "alloy_bytes_ssz_bytes_len" },
+    Target { file: "ssz/src/encode/impls.rs", imp: "Bytes", tr: "Encode", name: "ssz_append", coq: "alloy_bytes_ssz_append" },
     Target { file: "ssz/src/legacy.rs", imp: "", tr: "", name: "encode_four_byte_union_selector", coq: "encode_four_byte_union_selector" },
     Target { file: "ssz/src/legacy.rs", imp: "", tr: "", name: "read_four_byte_union_selector", coq: "read_four_byte_union_selector" },
 ];
@@ -192,6 +275,7 @@ const TARGETS: &[Target] = &[
 const RECORDS: &[(&str, &str)] = &[
     ("ssz/src/decode.rs", "Offset"),
     ("ssz/src/decode.rs", "SszDecoderBuilder"),
+    ("ssz/src/decode.rs", "SszDecoder"),
     ("ssz/src/encode.rs", "SszEncoder"),
     ("ssz/src/bitfield.rs", "Bitfield"),
     ("ssz/src/bitfield.rs", "BitIter"),
@@ -256,6 +340,11 @@ struct Cx {
     dict_used: Vec<(String, String)>,
     /// variables standing for a fully evaluated iterator (a list)
     list_vars: Vec<String>,
+    /// the `&mut Vec<u8>` parameter of the function being translated
+    mut_param: Option<String>,
+    /// a record variable built from the `&mut` parameter (`SszEncoder::container(buf, ..)`): (field, parameter).
+    /// The record owns the buffer; after each update of the record the parameter is re-read from that field.
+    borrows: HashMap<String, (String, String)>,
     /// dictionary parameter -> the text of its bounds
     dict_bounds: HashMap<String, String>,
     /// the dictionary signature of already translated generic functions: coq name -> member names in order
@@ -273,6 +362,10 @@ struct FnInfo {
     /// the record the function returns (`Self`, `Result<Self, _>`, ..)
     ret_rec: Option<String>,
     imp: String,
+    /// index (among the non-self parameters) of a `&mut Vec<u8>` parameter: the definition returns its final value
+    mut_param: Option<usize>,
+    /// a `&mut self` method that also returns a value: the definition returns (value, new state)
+    valued: bool,
 }
 
 /// "Bitfield<Variable<N>>" -> "Bitfield<Variable<_>>": impl keys compared up to the parameter name
@@ -290,6 +383,24 @@ fn shape(s: &str) -> String {
         }
     }
     out
+}
+
+/// the Coq type of `self` in an impl for a non-record type
+fn self_ty_coq(imp: &str) -> Option<String> {
+    Some(match imp {
+        "u8" | "u16" | "u32" | "u64" | "u128" | "usize" | "NonZeroUsize" | "U256" | "U128" => "N".to_string(),
+        "bool" => "bool".to_string(),
+        "Address" | "Bloom" | "FixedBytes<N>" | "[u8;N]" | "Bytes" => "bytes".to_string(),
+        "Option<T>" => "(option A_T)".to_string(),
+        "Vec<T>" | "SmallVec<[T;N]>" => "(list A_T)".to_string(),
+        "Arc<T>" | "&T" => "A_T".to_string(),
+        _ => return None,
+    })
+}
+
+/// byte width of an unsigned integer type
+fn uint_width(t: &str) -> Option<u32> {
+    Some(match t { "u8" => 1, "u16" => 2, "u32" => 4, "u64" | "usize" => 8, "u128" | "U128" => 16, "U256" => 32, _ => return None })
 }
 
 fn base_of(imp: &str) -> String {
@@ -350,6 +461,20 @@ fn is_list_chain(e: &Expr) -> bool {
     }
 }
 
+fn strip_refs(e: &Expr) -> &Expr {
+    match e {
+        Expr::Paren(p) => strip_refs(&p.expr),
+        Expr::Reference(r) => strip_refs(&r.expr),
+        Expr::Unary(u) if matches!(u.op, UnOp::Deref(_)) => strip_refs(&u.expr),
+        Expr::Group(g) => strip_refs(&g.expr),
+        other => other,
+    }
+}
+
+fn strip_is_self(e: &Expr) -> bool {
+    matches!(strip_refs(e), Expr::Path(p) if path_str(&p.path) == "self")
+}
+
 fn int_lit(e: &Expr) -> Option<u128> {
     match e {
         Expr::Lit(l) => match &l.lit {
@@ -364,7 +489,7 @@ fn int_lit(e: &Expr) -> Option<u128> {
 impl Cx {
     fn new(records: HashMap<String, Vec<String>>, res_fns: HashMap<String, String>) -> Self {
         Cx { fresh: 0, binds: vec![], self_rec: None, records, res_fns, fn_params: vec![], aliases: HashMap::new(), u8ctx: false, mut_methods: vec![], notes: vec![],
-             cur_imp: String::new(), tparams: vec![], var_rec: HashMap::new(), fns: HashMap::new(), ret_option: false, field_types: HashMap::new(), ret_none: "Ok None".to_string(), dict_params: vec![], dict_used: vec![], list_vars: vec![], dict_bounds: HashMap::new(), dict_sigs: HashMap::new() }
+             cur_imp: String::new(), tparams: vec![], var_rec: HashMap::new(), fns: HashMap::new(), ret_option: false, field_types: HashMap::new(), ret_none: "Ok None".to_string(), dict_params: vec![], dict_used: vec![], list_vars: vec![], mut_param: None, borrows: HashMap::new(), dict_bounds: HashMap::new(), dict_sigs: HashMap::new() }
     }
 
     fn var(&mut self, hint: &str) -> String {
@@ -709,12 +834,21 @@ impl Cx {
                         let rec = self.record_of_field(&fname).ok_or_else(|| format!("field {} of an unknown record", fname))?;
                         Ok((format!("({} {})", self.field_proj(&rec, &fname), base), Pure))
                     }
-                    Member::Unnamed(i) => Ok((format!("({} {})", if i.index == 0 { "fst" } else { "snd" }, base), Pure)),
+                    Member::Unnamed(i) => {
+                        if i.index == 0 && base == "self" && self_ty_coq(&self.cur_imp).as_deref() == Some("bytes") {
+                            // a newtype over a byte array (`FixedBytes(pub [u8; N])`, `Bloom(FixedBytes<256>)`, `Bytes`)
+                            return Ok(("self".to_string(), Pure));
+                        }
+                        Ok((format!("({} {})", if i.index == 0 { "fst" } else { "snd" }, base), Pure))
+                    }
                 }
             }
             Expr::Cast(c) => {
                 let v = self.val(&c.expr)?;
                 let ty = tokens(&c.ty);
+                if strip_is_self(&c.expr) && self.cur_imp == "bool" {
+                    return Ok((format!("(N.b2n {})", v), Pure));
+                }
                 Ok((match ty.as_str() {
                     "usize" | "u64" | "u128" => v,
                     "u32" => format!("({} mod 4294967296)", v),
@@ -818,6 +952,7 @@ impl Cx {
             Expr::Index(ix) => {
                 let base = self.val(&ix.expr)?;
                 match &*ix.index {
+                    Expr::Range(r) if r.start.is_none() && r.end.is_none() => Ok((base, Pure)),
                     Expr::Range(r) => {
                         let a = match &r.start { Some(s) => self.val(s)?, None => "0".into() };
                         match &r.end {
@@ -888,6 +1023,7 @@ impl Cx {
                         }
                         return Ok(match name.as_str() {
                             "is_ssz_fixed_len" | "ssz_fixed_len" => (member, Pure),
+                            "ssz_bytes_len" | "ssz_append" => (format!("({} {})", member, args.join(" ")), Pure),
                             "from_ssz_bytes" | "try_from_iter" => (format!("{} {}", member, args.join(" ")), Comp),
                             _ => return Err(format!("unsupported dictionary member {}::{}", ty, name)),
                         });
@@ -959,6 +1095,17 @@ impl Cx {
                     }
                     "std::default::Default::default" | "Default::default" => Ok(("DEFAULT".into(), Pure)),
                     "iter::empty" | "std::iter::empty" => Ok(("[]".into(), Pure)),
+                    "std::mem::size_of" | "mem::size_of" | "size_of" => {
+                        if let Expr::Path(pp) = &*c.func {
+                            if let Some(seg) = pp.path.segments.last() {
+                                let a = seg.arguments.to_token_stream().to_string().replace(' ', "");
+                                if let Some(w) = uint_width(a.trim_start_matches("::<").trim_end_matches('>')) {
+                                    return Ok((w.to_string(), Pure));
+                                }
+                            }
+                        }
+                        Err(format!("size_of of an unknown type: {}", tokens(e)))
+                    }
                     // itertools::process_results(results, |iter| f(iter)): the items up to the first error,
                     // handed to f (error payloads are erased, so the two Result layers are one outcome)
                     "process_results" => {
@@ -1084,11 +1231,50 @@ impl Cx {
             let f = self.closure1(&m.args[0], Comp)?;
             return Ok((format!("bind ({}) {}", r, f), Comp));
         }
+        if (name == "ssz_append" || name == "ssz_bytes_len") && self.rec_of_expr(&m.receiver).is_none() {
+            if let Some(pt) = self.prim_type(&m.receiver) {
+                if let Some(info) = self.fns.get(&format!("{}::Encode::{}", pt, name)).cloned() {
+                    let mut args = vec![self.val(&m.receiver)?];
+                    for a in &m.args {
+                        args.push(self.val(a)?);
+                    }
+                    return Ok((format!("{} {}", info.coq, args.join(" ")), Comp));
+                }
+            } else if let Some(d) = self.encode_dict() {
+                if !self.dict_used.contains(&(d.clone(), name.clone())) {
+                    self.dict_used.push((d.clone(), name.clone()));
+                }
+                let mut args = vec![self.val(&m.receiver)?];
+                for a in &m.args {
+                    args.push(self.val(a)?);
+                }
+                return Ok((format!("({}_{} {})", d, name, args.join(" ")), Pure));
+            }
+        }
         // a method of a translated record type (`self.len()`, `result.is_zero()`, `x.clone().into_bytes()`)
         if let Some(rec) = self.rec_of_expr(&m.receiver) {
             if !matches!(name.as_str(), "clone" | "expect" | "unwrap" | "unwrap_or_else" | "map_err" | "ok_or") {
                 match self.resolve_method(&rec, &name) {
                     Some(info) => {
+                        if info.mut_self && info.valued {
+                            // a `&mut self` method that returns a value: the pair (value, new state); the owner is re-bound
+                            if let Expr::Path(pp) = strip_refs(&m.receiver) {
+                                let var = path_str(&pp.path);
+                                let mut args = self.targs(&info, &[])?;
+                                args.extend(self.dict_args(&info.coq)?);
+                                args.push(var.clone());
+                                for a in &m.args {
+                                    if matches!(a, Expr::Closure(_)) {
+                                        args.push(self.closure1(a, Kind::Comp)?);
+                                    } else {
+                                        args.push(self.val(a)?);
+                                    }
+                                }
+                                let p = self.bind(format!("{} {}", info.coq, args.join(" ")), "vs");
+                                self.binds.push((format!("LET:{}", var), format!("(snd {})", p)));
+                                return Ok((format!("(fst {})", p), Pure));
+                            }
+                        }
                         if info.mut_self {
                             return Err(format!("call of the mutating method .{}() outside statement position", name));
                         }
@@ -1106,8 +1292,21 @@ impl Cx {
                 }
             }
         }
+        // `v.f.remove(i)`: the element; the field is updated (Vec::remove panics when out of range)
+        if name == "remove" && m.args.len() == 1 {
+            if let Some((var, f)) = self.place_field(&m.receiver) {
+                let i = self.val(&m.args[0])?;
+                let rec = self.rec_of_var(&var)?;
+                let cur = format!("({} {})", self.field_proj(&rec, &f), var);
+                let p = self.bind(format!("vec_remove {} {}", cur, i), "rm");
+                // re-bind the owner with the shortened vector: a LET bind placed after the removal
+                let upd = self.set_place(&var, &f, &format!("(snd {})", p))?;
+                self.binds.push((format!("LET:{}", var), upd));
+                return Ok((format!("(fst {})", p), Pure));
+            }
+        }
         // `r.map(f)` on a Result
-        if name == "map" && !is_list_chain(&m.receiver) {
+        if name == "map" && !is_list_chain(&m.receiver) && !matches!(strip_refs(&m.receiver), Expr::Path(pp) if self.list_vars.contains(&coq_ident(&path_str(&pp.path)))) {
             let mark = self.binds.len();
             let saved_fresh = self.fresh;
             let (r, k) = self.expr(&m.receiver)?;
@@ -1184,7 +1383,7 @@ impl Cx {
                 (format!("(is_some_and {} {})", r, f), Pure)
             }
             "map" => {
-                let list = is_list_chain(&m.receiver);
+                let list = is_list_chain(&m.receiver) || matches!(strip_refs(&m.receiver), Expr::Path(pp) if self.list_vars.contains(&coq_ident(&path_str(&pp.path))));
                 let mark = self.binds.len();
                 match self.closure1(&m.args[0], Pure) {
                     Ok(f) => (if list { format!("(map {} {})", f, r) } else { format!("(option_map {} {})", f, r) }, Pure),
@@ -1209,7 +1408,20 @@ impl Cx {
                 let a = arg(self, 0)?;
                 (format!("(div_ceil {} {})", r, a), Pure)
             }
-            "to_le_bytes" => (format!("(le_bytes 8 {})", r), Pure),
+            "to_le_bytes" => {
+                // the width is that of the receiver's type: `self` of a uint impl, or a cast
+                let w = match strip_refs(&m.receiver) {
+                    Expr::Path(pp) if path_str(&pp.path) == "self" => uint_width(&self.cur_imp).unwrap_or(8),
+                    Expr::Cast(c) => uint_width(&tokens(&c.ty)).unwrap_or(8),
+                    _ => 8,
+                };
+                (format!("(le_bytes {} {})", w, r), Pure)
+            }
+            "as_le_slice" => {
+                let w = uint_width(&self.cur_imp).ok_or("as_le_slice of an unknown integer type")?;
+                (format!("(le_bytes {} {})", w, r), Pure)
+            }
+            "as_ref" | "get" if strip_is_self(&m.receiver) && !self.self_rec.is_some() => (r, Pure),
             "cmp" => {
                 let a = arg(self, 0)?;
                 (format!("(N.compare {} {})", r, a), Pure)
@@ -1503,7 +1715,16 @@ impl Cx {
                 }
                 let v = self.val(&init.expr)?;
                 match rec {
-                    Some(r) => { self.var_rec.insert(name.clone(), r); }
+                    Some(r) => {
+                        // `let mut enc = Rec::new(buf, ..)`: the record owns the `&mut` parameter from here on
+                        if let (Some(mp), Expr::Call(ic)) = (self.mut_param.clone(), &*init.expr) {
+                            let passes = ic.args.iter().any(|a| matches!(strip_refs(a), Expr::Path(p) if path_str(&p.path) == mp));
+                            if passes && self.records.get(&r).map(|fs| fs.contains(&mp)).unwrap_or(false) {
+                                self.borrows.insert(name.clone(), (mp.clone(), mp.clone()));
+                            }
+                        }
+                        self.var_rec.insert(name.clone(), r);
+                    }
                     None => { self.var_rec.remove(&name); }
                 }
                 let body = self.block(rest, k)?;
@@ -1512,7 +1733,8 @@ impl Cx {
             Stmt::Expr(e, semi) => {
                 let is_mutation = matches!(e, Expr::Assign(_) | Expr::ForLoop(_))
                     || matches!(e, Expr::Binary(b) if matches!(b.op, BinOp::AddAssign(_) | BinOp::BitOrAssign(_) | BinOp::BitAndAssign(_)));
-                let is_mutation = is_mutation || self.mut_self_call(e).is_some() || local_mutator(e).is_some();
+                let is_mutation = is_mutation || self.mut_self_call(e).is_some() || local_mutator(e).is_some() || self.is_buf_call(e)
+                    || matches!(e, Expr::MethodCall(m) if m.method == "reserve");
                 if rest.is_empty() && semi.is_none() && !is_mutation {
                     return self.tail(e, k);
                 }
@@ -1574,7 +1796,7 @@ impl Cx {
         };
         let rec = self.rec_of_var(&var).ok()?;
         let info = self.resolve_method(&rec, &m.method.to_string())?;
-        if !info.mut_self {
+        if !info.mut_self || info.valued {
             return None;
         }
         Some((var, info, m.args.iter().cloned().collect(), unwrap))
@@ -1582,6 +1804,101 @@ impl Cx {
 
     fn mut_self_call(&self, e: &Expr) -> Option<(String, Vec<Expr>, bool)> {
         self.mut_call(e).map(|(_, i, a, u)| (i.coq, a, u))
+    }
+
+    /// the single `Encode` dictionary parameter in scope, if there is exactly one
+    fn encode_dict(&self) -> Option<String> {
+        let ds: Vec<&String> = self.dict_params.iter().filter(|d| self.dict_bounds.get(*d).map(|b| b.contains("Encode")).unwrap_or(false)).collect();
+        if ds.len() == 1 { Some(ds[0].clone()) } else { None }
+    }
+
+    /// the primitive type of an expression, when evident (`self` of a primitive impl, `self.get()`, a cast)
+    fn prim_type(&self, e: &Expr) -> Option<String> {
+        match strip_refs(e) {
+            Expr::Path(p) if path_str(&p.path) == "self" && uint_width(&self.cur_imp).is_some() => Some(self.cur_imp.clone()),
+            Expr::MethodCall(m) if m.method == "get" && strip_is_self(&m.receiver) && self.cur_imp == "NonZeroUsize" => Some("usize".to_string()),
+            Expr::Cast(c) => Some(tokens(&c.ty)),
+            _ => None,
+        }
+    }
+
+    /// A call that writes into a buffer passed as a `&mut Vec<u8>` argument:
+    ///   `x.ssz_append(buf)`  (x of a dictionary type or of a translated primitive impl)
+    ///   `T::ssz_append(x, buf)`
+    ///   `f(.., buf)` for a translated function with a `&mut` parameter
+    /// Returns (buffer variable, term of the new buffer, is the term a computation?).
+    fn buf_call(&mut self, e: &Expr) -> R<Option<(String, String, bool)>> {
+        match e {
+            Expr::MethodCall(m) if m.method == "ssz_append" && m.args.len() == 1 => {
+                let bufv = match strip_refs(&m.args[0]) { Expr::Path(p) if p.path.segments.len() == 1 => coq_ident(&path_str(&p.path)), _ => return Ok(None) };
+                if self.rec_of_expr(&m.receiver).is_some() {
+                    return Ok(None);
+                }
+                if let Some(pt) = self.prim_type(&m.receiver) {
+                    let key = format!("{}::Encode::ssz_append", pt);
+                    if let Some(info) = self.fns.get(&key).cloned() {
+                        let r = self.val(&m.receiver)?;
+                        return Ok(Some((bufv.clone(), format!("{} {} {}", info.coq, r, bufv), true)));
+                    }
+                    return Err(format!("ssz_append of the primitive type {} is not a translated function", pt));
+                }
+                if let Some(d) = self.encode_dict() {
+                    if !self.dict_used.contains(&(d.clone(), "ssz_append".to_string())) {
+                        self.dict_used.push((d.clone(), "ssz_append".to_string()));
+                    }
+                    let r = self.val(&m.receiver)?;
+                    return Ok(Some((bufv.clone(), format!("{}_ssz_append {} {}", d, r, bufv), false)));
+                }
+                Ok(None)
+            }
+            Expr::Call(c) => {
+                let pth = match &*c.func { Expr::Path(p) => p, _ => return Ok(None) };
+                // T::ssz_append(x, buf)
+                if pth.path.segments.len() == 2 && path_last(&pth.path) == "ssz_append" && self.dict_params.contains(&pth.path.segments[0].ident.to_string()) && c.args.len() == 2 {
+                    let d = pth.path.segments[0].ident.to_string();
+                    let bufv = match strip_refs(&c.args[1]) { Expr::Path(p) if p.path.segments.len() == 1 => coq_ident(&path_str(&p.path)), _ => return Ok(None) };
+                    if !self.dict_used.contains(&(d.clone(), "ssz_append".to_string())) {
+                        self.dict_used.push((d.clone(), "ssz_append".to_string()));
+                    }
+                    let x = self.val(&c.args[0])?;
+                    return Ok(Some((bufv.clone(), format!("{}_ssz_append {} {}", d, x, bufv), false)));
+                }
+                // f(.., buf) for a translated function with a `&mut` parameter
+                let (name, ty, nums) = split_fn_path(&pth.path);
+                let info = match self.fns.get(&path_str(&pth.path)).cloned().or_else(|| self.resolve(&name, ty.as_deref())) { Some(i) => i, None => return Ok(None) };
+                let mp = match info.mut_param { Some(i) => i, None => return Ok(None) };
+                if mp >= c.args.len() {
+                    return Ok(None);
+                }
+                let bufv = match strip_refs(&c.args[mp]) { Expr::Path(p) if p.path.segments.len() == 1 => coq_ident(&path_str(&p.path)), _ => return Ok(None) };
+                let explicit: Vec<String> = if ty.as_deref() == Some("Self") || ty.is_none() { vec![] } else { nums };
+                let mut all = self.targs(&info, &explicit)?;
+                all.extend(self.dict_args(&info.coq)?);
+                for a in &c.args {
+                    all.push(self.val(a)?);
+                }
+                Ok(Some((bufv, format!("{} {}", info.coq, all.join(" ")), true)))
+            }
+            _ => Ok(None),
+        }
+    }
+
+    fn is_buf_call(&self, e: &Expr) -> bool {
+        match e {
+            Expr::MethodCall(m) if m.method == "ssz_append" && m.args.len() == 1 && self.rec_of_expr(&m.receiver).is_none() =>
+                matches!(strip_refs(&m.args[0]), Expr::Path(p) if p.path.segments.len() == 1),
+            Expr::Call(c) => match &*c.func {
+                Expr::Path(p) => {
+                    if p.path.segments.len() == 2 && path_last(&p.path) == "ssz_append" && self.dict_params.contains(&p.path.segments[0].ident.to_string()) {
+                        return true;
+                    }
+                    let (name, ty, _) = split_fn_path(&p.path);
+                    self.fns.get(&path_str(&p.path)).cloned().or_else(|| self.resolve(&name, ty.as_deref())).map(|i| i.mut_param.is_some()).unwrap_or(false)
+                }
+                _ => false,
+            },
+            _ => false,
+        }
     }
 
     fn set_place(&self, var: &str, field: &str, v: &str) -> R<String> {
@@ -1640,6 +1957,9 @@ impl Cx {
                     };
                 if is_mut {
                     self.add(root(&m.receiver));
+                }
+                if name == "ssz_append" && m.args.len() == 1 && self.cx.rec_of_expr(&m.receiver).is_none() {
+                    self.add(root(&m.args[0]));
                 }
                 syn::visit::visit_expr_method_call(self, m);
             }
@@ -1723,14 +2043,35 @@ impl Cx {
                     return Err(format!("mutating method of another impl ({})", info.imp));
                 }
                 let mut avs = self.targs(&info, &[])?;
+                avs.extend(self.dict_args(&info.coq)?);
                 avs.push(var.clone());
                 for a in &args {
-                    avs.push(self.val(a)?);
+                    if matches!(a, Expr::Closure(_)) {
+                        avs.push(self.closure1(a, Kind::Pure)?);
+                    } else {
+                        avs.push(self.val(a)?);
+                    }
                 }
                 let call = format!("{} {}", info.coq, avs.join(" "));
                 let st = self.bind(if unwrap { format!("unwrap_res ({})", call) } else { call }, "st");
                 let body = self.block(rest, k)?;
+                if let Some((field, local)) = self.borrows.get(&var).cloned() {
+                    let rec = self.rec_of_var(&var)?;
+                    return Ok(format!("let {} := {} in\nlet {} := ({} {}) in\n{}", var, st, local, self.field_proj(&rec, &field), var, body));
+                }
                 Ok(format!("let {} := {} in\n{}", var, st, body))
+            }
+            // calls that write into a `&mut Vec<u8>` argument
+            Expr::MethodCall(_) | Expr::Call(_) if self.is_buf_call(e) => {
+                let (bufv, term, comp) = self.buf_call(e)?.ok_or_else(|| format!("unsupported buffer call: {}", tokens(e)))?;
+                let nv = if comp { self.bind(term, "b") } else { term };
+                let body = self.block(rest, k)?;
+                Ok(format!("let {} := {} in\n{}", bufv, nv, body))
+            }
+            // v.reserve(n): no observable effect, but the argument is evaluated (it can overflow)
+            Expr::MethodCall(m) if m.method == "reserve" && m.args.len() == 1 => {
+                let _ = self.val(&m.args[0])?;
+                self.block(rest, k)
             }
             // v.resize(n, x);  v.truncate(n);  v.extend_from_slice(x);  v.push(x);   on a plain local
             Expr::MethodCall(m) if local_mutator(e).is_some() && self.place_field(&m.receiver).is_none() => {
@@ -1770,6 +2111,14 @@ impl Cx {
                 let upd = self.set_place(&var, &field, &format!("upd_at {} {} ({} {} {})", cur, idx, op, coq_ident(&target), r))?;
                 let body = self.block(rest, k)?;
                 Ok(format!("let {} := {} in\n{}", var, upd, body))
+            }
+            // x += e;   on a plain local
+            Expr::Binary(b) if matches!(b.op, BinOp::AddAssign(_)) && matches!(&*b.left, Expr::Path(p) if p.path.segments.len() == 1 && path_str(&p.path) != "self") => {
+                let var = match &*b.left { Expr::Path(p) => coq_ident(&path_str(&p.path)), _ => unreachable!() };
+                let r = self.val(&b.right)?;
+                let nv = self.bind(format!("usize_add {} {}", var, r), "s");
+                let body = self.block(rest, k)?;
+                Ok(format!("let {} := {} in\n{}", var, nv, body))
             }
             // self.f += e;
             Expr::Binary(b) if matches!(b.op, BinOp::AddAssign(_)) => {
@@ -2145,14 +2494,18 @@ fn main() {
         v
     };
     // type parameters bounded by Decode / Encode (in the parameter list or the where clause)
+    fn is_dict_bound(b: &str) -> bool {
+        b.split(|c: char| !c.is_alphanumeric() && c != '_').any(|w| matches!(w, "Decode" | "Encode" | "TryFromIter"))
+            && !b.contains("Fn(") && !b.contains("FnOnce(") && !b.contains("FnMut(")
+    }
     let dicts = |g: &syn::Generics| -> Vec<String> {
-        let mut v: Vec<String> = g.type_params().filter(|tp| { let b = tp.bounds.to_token_stream().to_string(); b.contains("Decode") || b.contains("Encode") || b.contains("TryFromIter") }).map(|tp| tp.ident.to_string()).collect();
+        let mut v: Vec<String> = g.type_params().filter(|tp| is_dict_bound(&tp.bounds.to_token_stream().to_string())).map(|tp| tp.ident.to_string()).collect();
         if let Some(w) = &g.where_clause {
             for pr in &w.predicates {
                 if let syn::WherePredicate::Type(pt) = pr {
                     let b = pt.bounds.to_token_stream().to_string();
                     let t = norm_type(&pt.bounded_ty);
-                    if (b.contains("Decode") || b.contains("Encode")) && !v.contains(&t) {
+                    if is_dict_bound(&b) && !v.contains(&t) {
                         v.push(t);
                     }
                 }
@@ -2176,12 +2529,20 @@ fn main() {
                             Type::Path(p) => path_last(&p.path),
                             _ => String::new(),
                         };
-                        let matches_imp = if t.imp.contains('<') || t.imp.contains('[') { full == t.imp } else { last == t.imp };
+                        let matches_imp = if t.imp.contains('<') || t.imp.contains('[') || t.imp.starts_with('&') { full == t.imp } else { last == t.imp };
                         if matches_imp {
                             for ii in &imp.items {
                                 if let ImplItem::Fn(m) = ii {
                                     if m.sig.ident == t.name {
-                                        impl_bounds.insert(t.imp.to_string(), imp.generics.type_params().map(|tp| (tp.ident.to_string(), tp.bounds.to_token_stream().to_string().replace(' ', ""))).collect());
+                                        let mut ib: Vec<(String, String)> = imp.generics.type_params().map(|tp| (tp.ident.to_string(), tp.bounds.to_token_stream().to_string().replace(' ', ""))).collect();
+                                        if let Some(w) = &imp.generics.where_clause {
+                                            for pr in &w.predicates {
+                                                if let syn::WherePredicate::Type(wt) = pr {
+                                                    ib.push((norm_type(&wt.bounded_ty), wt.bounds.to_token_stream().to_string().replace(' ', "")));
+                                                }
+                                            }
+                                        }
+                                        impl_bounds.insert(t.imp.to_string(), ib);
                                         hit = Some((m.sig.clone(), m.block.clone(), t.imp.to_string(), numeric(&imp.generics), dicts(&imp.generics)));
                                     }
                                 }
@@ -2196,7 +2557,7 @@ fn main() {
             Some((sig, block, imp_key, impl_nums, impl_dicts)) => {
                 let ret = match &sig.output { ReturnType::Type(_, t) => tokens(&**t).replace(' ', ""), ReturnType::Default => "()".into() };
                 let key = if t.imp.is_empty() { t.name.to_string() } else if t.tr.is_empty() { format!("{}::{}", t.imp, t.name) } else { format!("{}::{}::{}", t.imp, t.tr, t.name) };
-                let is_mut = sig.inputs.iter().any(|a| matches!(a, FnArg::Receiver(r) if r.mutability.is_some()));
+                let is_mut = sig.inputs.iter().any(|a| matches!(a, FnArg::Receiver(r) if r.mutability.is_some() && r.reference.is_some()));
                 if is_mut {
                     mut_methods.push(key.clone());
                 }
@@ -2217,7 +2578,8 @@ fn main() {
                 } else {
                     records.keys().find(|r| ret == **r || ret.starts_with(&format!("{}<", r)) || ret.contains(&format!("<{}<", r)) || ret.contains(&format!("<{},", r))).cloned()
                 };
-                fns.insert(key.clone(), FnInfo { coq: t.coq.to_string(), tparams: tparams.clone(), n_impl, mut_self: is_mut, ret_rec, imp: imp_key.clone() });
+                let mut_param = if matches!(sig.output, ReturnType::Default) { sig.inputs.iter().filter(|a| matches!(a, FnArg::Typed(_))).position(|a| matches!(a, FnArg::Typed(pt) if matches!(&*pt.ty, Type::Reference(r) if r.mutability.is_some()))) } else { None };
+                fns.insert(key.clone(), FnInfo { coq: t.coq.to_string(), tparams: tparams.clone(), n_impl, mut_self: is_mut, ret_rec, imp: imp_key.clone(), mut_param, valued: { let r = ret.clone(); is_mut && r != "()" && !r.starts_with("Result<(),") && !r.starts_with('&') } });
                 let mut dict_params = impl_dicts.clone();
                 dict_params.extend(dicts(&sig.generics));
                 found.push(Found { t, sig, block, imp_key, tparams, n_impl, dict_params });
@@ -2242,8 +2604,16 @@ fn main() {
         for tp in sig.generics.type_params() {
             cx.dict_bounds.insert(tp.ident.to_string(), tp.bounds.to_token_stream().to_string().replace(' ', ""));
         }
+        if let Some(w) = &sig.generics.where_clause {
+            for pr in &w.predicates {
+                if let syn::WherePredicate::Type(wt) = pr {
+                    let e = cx.dict_bounds.entry(norm_type(&wt.bounded_ty)).or_default();
+                    e.push_str(&wt.bounds.to_token_stream().to_string().replace(' ', ""));
+                }
+            }
+        }
         for (n, b) in impl_bounds.get(imp_key.as_str()).cloned().unwrap_or_default() {
-            cx.dict_bounds.insert(n, b);
+            cx.dict_bounds.entry(n).or_default().push_str(&b);
         }
         for (rn, fs) in &rec_types {
             for (f, t) in fs {
@@ -2261,6 +2631,8 @@ fn main() {
         let mut mut_self = false;
         let mut mut_param: Option<String> = None;
         let mut err: Option<String> = None;
+        let mut force_type_param = false;
+        let mut force_types: Vec<String> = vec![];
         let base = base_of(imp_key);
         if !t.imp.is_empty() && records.contains_key(&base) {
             cx.self_rec = Some(base.clone());
@@ -2269,19 +2641,56 @@ fn main() {
             match a {
                 FnArg::Receiver(r) => {
                     has_self = true;
-                    mut_self = r.mutability.is_some();
-                    params.push(format!("(self : {})", base));
+                    mut_self = r.mutability.is_some() && r.reference.is_some();
+                    if records.contains_key(&base) {
+                        params.push(format!("(self : {})", base));
+                    } else {
+                        match self_ty_coq(imp_key) {
+                            Some(t) => {
+                                if t.contains("A_T") {
+                                    force_type_param = true;
+                                }
+                                params.push(format!("(self : {})", t))
+                            }
+                            None => err = Some(format!("the type of self in impl {} is not known to the translator", imp_key)),
+                        }
+                    }
                 }
                 FnArg::Typed(pt) => {
                     let name = match &*pt.pat { Pat::Ident(i) => coq_ident(&i.ident.to_string()), p => tokens(p) };
                     let tys = tokens(&*pt.ty);
-                    if tys.len() == 1 && tys.chars().all(|c| c.is_uppercase()) {
+                    // `iter: I` with `I: Iterator<Item = T>`: a list of items;  `item: &T`: an item
+                    {
+                        let tyn = norm_type(&pt.ty).replace('&', "");
+                        let bound = cx.dict_bounds.get(&tyn).cloned().unwrap_or_default();
+                        if bound.contains("Iterator<Item=") {
+                            let item = bound.split("Iterator<Item=").nth(1).and_then(|x| x.split('>').next()).unwrap_or("T").to_string();
+                            cx.list_vars.push(name.clone());
+                            force_type_param = true;
+                            params.push(format!("({} : list A_{})", name, item));
+                            continue;
+                        }
+                        if dict_params.contains(&tyn) {
+                            force_type_param = true;
+                            params.push(format!("({} : A_{})", name, tyn));
+                            continue;
+                        }
+                    }
+                    if tys.len() == 1 && tys.chars().all(|c| c.is_uppercase()) && cx.dict_bounds.get(&tys).map(|b| b.contains("->Result<")).unwrap_or(false) {
+                        // `F: FnOnce(&[u8]) -> Result<T, E>`: a fallible function of a slice
+                        let b = cx.dict_bounds.get(&tys).cloned().unwrap_or_default();
+                        let ret = b.split("->Result<").nth(1).and_then(|x| x.split(',').next()).unwrap_or("T").to_string();
+                        cx.res_fns.insert(name.clone(), name.clone());
+                        force_types.push(ret.clone());
+                        params.push(format!("({} : bytes -> outcome A_{})", name, ret));
+                    } else if tys.len() == 1 && tys.chars().all(|c| c.is_uppercase()) {
                         // a generic `F: Fn(&mut Vec<u8>)` parameter
                         cx.fn_params.push(name.clone());
                         params.push(format!("({} : bytes -> bytes)", name));
                     } else {
-                        if matches!(&*pt.ty, Type::Reference(r) if r.mutability.is_some()) {
+                        if matches!(&*pt.ty, Type::Reference(r) if r.mutability.is_some()) && matches!(sig.output, ReturnType::Default) {
                             mut_param = Some(name.clone());
+                            cx.mut_param = Some(name.clone());
                         }
                         match coq_type(&pt.ty, &records) {
                             Ok(ct) => {
@@ -2329,20 +2738,24 @@ fn main() {
                 // dictionary members the body uses, in a fixed order, right after the type-level numbers
                 let mut dparams: Vec<String> = vec![];
                 let mut sig_members: Vec<String> = vec![];
+                let mut declared_types: Vec<String> = vec![];
                 for d in dict_params {
                     let used: Vec<&String> = cx.dict_used.iter().filter(|(t, _)| t == d).map(|(_, m)| m).collect();
-                    if used.is_empty() {
+                    if used.is_empty() && !(force_type_param && d == "T") {
                         continue;
                     }
-                    if used.iter().any(|u| *u == "from_ssz_bytes" || *u == "try_from_iter") {
+                    if used.iter().any(|u| matches!(u.as_str(), "from_ssz_bytes" | "try_from_iter" | "ssz_append" | "ssz_bytes_len")) || (force_type_param && d == "T") {
                         dparams.push(format!("{{A_{} : Type}}", d));
+                        declared_types.push(d.clone());
                     }
-                    for m in ["is_ssz_fixed_len", "ssz_fixed_len", "from_ssz_bytes", "try_from_iter"] {
+                    for m in ["is_ssz_fixed_len", "ssz_fixed_len", "ssz_bytes_len", "ssz_append", "from_ssz_bytes", "try_from_iter"] {
                         if used.iter().any(|u| *u == m) {
                             sig_members.push(format!("{}_{}", d, m));
                             dparams.push(match m {
                                 "is_ssz_fixed_len" => format!("({}_{} : bool)", d, m),
                                 "ssz_fixed_len" => format!("({}_{} : N)", d, m),
+                                "ssz_bytes_len" => format!("({}_{} : A_{} -> N)", d, m, d),
+                                "ssz_append" => format!("({}_{} : A_{} -> bytes -> bytes)", d, m, d),
                                 "try_from_iter" => {
                                     // `Container: TryFromIter<T>`: the item type is the bound's argument
                                     let b = cx.dict_bounds.get(d).cloned().unwrap_or_default();
@@ -2352,6 +2765,16 @@ fn main() {
                                 _ => format!("({}_{} : bytes -> outcome A_{})", d, m, d),
                             });
                         }
+                    }
+                }
+                if force_type_param && !declared_types.contains(&"T".to_string()) {
+                    dparams.insert(0, "{A_T : Type}".to_string());
+                    declared_types.push("T".to_string());
+                }
+                for ft in &force_types {
+                    if !declared_types.contains(ft) {
+                        dparams.insert(0, format!("{{A_{} : Type}}", ft));
+                        declared_types.push(ft.clone());
                     }
                 }
                 dict_sigs.insert(t.coq.to_string(), sig_members.clone());
